@@ -220,3 +220,12 @@ def _iface_specs():
                                         "(`force_complex` only converts the dtype of the angles)"))
     return out
 SPECS["C04"] += _iface_specs()
+
+# ---- C01: Rays.expand_rays' kernel, one ray (i, j): the column of interior indices after one more interface
+SPECS["C01"] += [
+    FuncSpec(RAY, "_expand_rays", "expand_rays_cell",
+             [("interior_indices", A(I, 3)), ("indices_new_interface", A(I, 2)), ("depth", N), ("i", N), ("j", N)],
+             bind={"d": ("depth", N)}, skip=["d, n, m = interior_indices.shape", "_, p = indices_new_interface.shape"],
+             cell={"loops": ["i", "j"], "arrays": {}, "columns": {"expanded_indices": (I, ("i", "j"))}},
+             doc="`depth` is `d = interior_indices.shape[0]`; the result is the column `expanded_indices[:, i, j]`"),
+]
